@@ -212,9 +212,15 @@ impl<L: Lit> Renumber<L> {
         }
 
         for latch in &aig.latches {
+            let state = latch.state;
+            if self.defs.contains_key(&state)
+                || self.defs.contains_key(&L::from_code(1 ^ state.code()))
+                || self.lit_map.contains_key(state)
+            {
+                return Err(AigStructureError::LitAlreadyDefined { lit: state });
+            }
             self.last_code += 2;
-            self.lit_map
-                .insert(latch.state, L::from_code(self.last_code));
+            self.lit_map.insert(state, L::from_code(self.last_code));
         }
 
         if !self.config.trim {
